@@ -1,5 +1,5 @@
 (** C09 — what the application sets is what a controller reads, and vice versa. *)
-From HC Require Import Base.HBytes Base.HBytesProofs Model.Charac Model.Hap Proofs.HapProofs Proofs.CharacProofs.
+From HC Require Import Base.HBytes Base.HBytesProofs Model.Charac Model.Hap Proofs.HapProofs Proofs.CharacProofs Model.Respond Proofs.RespondProofs.
 Open Scope N_scope.
 
 (** GET /characteristics for ANY id list: one entry per requested id, in order; a found entry
@@ -43,3 +43,36 @@ Theorem C09_get_shape_refuted_pinned :
   RChars 207 [((2, 9), Some (VBool false), None); ((2, 99), None, Some (-70402)%Z)].
 Proof. exact pinned_multistatus_incomplete. Qed.
 Print Assumptions C09_get_shape_refuted_pinned.
+
+(** What the controller reads stays readable while values change: a response is written to the
+    connection in several parts, and notifications for the same connection are produced by other
+    goroutines at any moment.  For EVERY history of request starts, response parts, request ends and
+    notifications in which parts are written only while a request is being handled, no response is
+    continued after a notification ... *)
+Theorem C09_responses_never_interleaved : forall ops,
+  wf_ops ops = true -> responses_intact (rout (rrun true ops)) = true.
+Proof. exact responses_never_interleaved. Qed.
+Print Assumptions C09_responses_never_interleaved.
+
+(** ... every notification is written exactly once and in the order it was made (those of a request
+    still being handled are pending), the parts of the responses are exactly what the server wrote, and
+    once no request is being handled nothing is pending (for every history, well-formed or not). *)
+Theorem C09_notifications_and_parts_conserved : forall ops,
+  let s := rrun true ops in
+  notes_of_items (rout s) ++ pending s = notes_of_ops ops /\
+  parts_of_items (rout s) = parts_of_ops ops /\
+  (responding s = false -> pending s = []).
+Proof. exact notifications_and_parts_conserved. Qed.
+Print Assumptions C09_notifications_and_parts_conserved.
+
+(** The code before fix 826820b (notifications written at once) is refuted. *)
+Theorem C09_refuted_unqueued_notifications :
+  wf_ops [RBegin; RPart [1]; RNotify [9]; RPart [2]; RFinish] = true /\
+  responses_intact (rout (rrun false [RBegin; RPart [1]; RNotify [9]; RPart [2]; RFinish])) = false.
+Proof. exact unqueued_refuted. Qed.
+
+Example C09_responses_nonvacuous :
+  wf_ops [RNotify [8]; RBegin; RPart [1]; RNotify [9]; RPart [2]; RNotify [7]; RFinish; RNotify [6]] = true /\
+  rout (rrun true [RNotify [8]; RBegin; RPart [1]; RNotify [9]; RPart [2]; RNotify [7]; RFinish; RNotify [6]])
+  = [Note [8]; Part 1 [1]; Part 1 [2]; Note [9]; Note [7]; Note [6]].
+Proof. exact respond_nonvacuous. Qed.
